@@ -1,6 +1,6 @@
 #!/bin/sh
 # tools/confirm_seeded.sh <PROP> <i> : confirm mutant i of /tmp/mut/<PROP> in its scratch worktree and print a one-line verdict.
-P=$1; I=$2; W=/tmp/mut/$P
+P=$1; I=$2; W=${3:-/tmp/mut}/$P
 cd $W || exit 3
 git checkout -q -- maltoolbox
 /venv/bin/python demo$I.py > /tmp/confirm_$P$I.clean.log 2>&1; c=$?
